@@ -61,10 +61,11 @@ type Seg struct {
 
 type Param struct {
 	Name string
-	Loc  string // path | query | header | urlform | multiform | form (either, by the media type of the call) | file | body
-	Kind string // scalar | multi | file | body (JSON object / array) | strbody (a string, sent as JSON or as text)
-	Type string // string | integer | boolean | object | array
-	Req  bool   // declared required (path parameters always are)
+	Loc  string   // path | query | header | urlform | multiform | form (either, by the media type of the call) | file | body
+	Kind string   // scalar | multi | file | body (JSON object / array) | strbody (a string, sent as JSON or as text)
+	Type string   // string | integer | boolean | object | array
+	Req  bool     // declared required (path parameters always are)
+	Def  []string // multi arrays: the default declared in the description (nil = none)
 }
 
 type Op struct {
@@ -185,8 +186,19 @@ func kvFrom(v any) []KV {
 	return out
 }
 
+func defFrom(pm M) []string {
+	if !drv.Bool(pm["hasdef"]) {
+		return nil
+	}
+	out := []string{}
+	for _, v := range drv.List(pm["def"]) {
+		out = append(out, trace.Str(v))
+	}
+	return out
+}
+
 func (p Param) JSON() M {
-	return M{"name": p.Name, "loc": p.Loc, "kind": p.Kind, "type": p.Type, "req": p.Req}
+	return M{"name": p.Name, "loc": p.Loc, "kind": p.Kind, "type": p.Type, "req": p.Req, "hasdef": p.Def != nil, "def": trace.BB(p.Def)}
 }
 
 func (c Case) JSON() M {
@@ -250,7 +262,7 @@ func caseFrom(d M) Case {
 		}
 		for _, p := range drv.List(m["params"]) {
 			pm := drv.Map(p)
-			op.Params = append(op.Params, Param{Name: drv.Str(pm["name"]), Loc: drv.Str(pm["loc"]), Kind: drv.Str(pm["kind"]), Type: drv.Str(pm["type"]), Req: drv.Bool(pm["req"])})
+			op.Params = append(op.Params, Param{Name: drv.Str(pm["name"]), Loc: drv.Str(pm["loc"]), Kind: drv.Str(pm["kind"]), Type: drv.Str(pm["type"]), Req: drv.Bool(pm["req"]), Def: defFrom(pm)})
 		}
 		for _, p := range drv.List(m["produces"]) {
 			op.Produces = append(op.Produces, drv.Str(p))
@@ -329,6 +341,9 @@ func (p Param) spec() M {
 	switch p.Kind {
 	case "multi":
 		m["type"], m["collectionFormat"], m["items"] = "array", "multi", M{"type": "string"}
+		if p.Def != nil {
+			m["default"] = p.Def
+		}
 	case "file":
 		m["type"] = "file"
 	default:
@@ -1592,6 +1607,8 @@ func generate(c *drv.Ctx) {
 	genRound4(c, emit)
 	// (xv) calls that supply only some of the optional parameters
 	genOmissions(c, emit)
+	// (xvi) multi arrays that declare a default x supplied lists with empty items
+	genDefaults(c, emit)
 	c.Extra["exhaustive_cases"] = n
 	// (iv) seeded random: single calls on the shared servers, and sessions on servers of their own
 	nr, ns := 1500, 400
